@@ -26,7 +26,10 @@ from mc.engine import exc_symptom, short_tb
 
 ID = "C09"
 RULE = ("product explorer over configurations x iteration horizons: a case is (member of the explicit integer data "
-        "family D, holder of that array, rank); inside, every trajectory key T = (starting guess, dimorder, optdims) of "
+        "family D, holder of that array, storage dtype of the holder's cells, rank); the storage dtype dimension is "
+        "float64 or an integer dtype that represents every stored value exactly (decided on the reference side; the "
+        "reference array is always float64), applied to every cell collection the holder stores (dense array, sparse "
+        "value column, Tucker core, each dense / sparse part of a sum); inside, every trajectory key T = (starting guess, dimorder, optdims) of "
         "the tier's option lattice is one state sequence: the real cp_als is re-run with maxiters = 1..K from the same "
         "guess (base options fixsigns=True, printitn=0, stoptol=0, data wrapped in a recording proxy), and again "
         "on the bare data object for the other (fixsigns, printitn, stoptol) combinations of the tier.  A trajectory "
@@ -54,7 +57,8 @@ BOUNDS = {
     "quick": "shapes (3,4),(4,3),(2,3,4),(4,3,2),(2,2,2,3),(3,3,3); 5 data members per shape (exact rank 1, exact rank 2, "
              "rank 2 + integer noise, generic, counts with an empty slice); holders tensor, sptensor, ttensor "
              "(identity factors; native CP factors for the exact members), sumtensor (dense+sparse split; Kruskal + "
-             "sparse noise); rank 1..3; K = 3 horizons; guesses: given integer ktensor x dimorder {identity, reversal, "
+             "sparse noise); every holder with storage dtype float64, int64 and the narrowest exact integer dtype of "
+             "the member (int8 / int16, uint8 for the non-negative counts); rank 1..3; K = 3 horizons; guesses: given integer ktensor x dimorder {identity, reversal, "
              "3-cycle} x optdims {all, drop-first, single}, the given guess with non-unit mixed-sign weights x {(identity, "
              "all), (reversal, drop-first)}, warm restarts (guess = model returned by an earlier call of j sweeps) "
              "(j=2, identity, all) and (j=1, reversal, drop-first), random seeds {0,1,2} and nvecs with default "
@@ -63,7 +67,8 @@ BOUNDS = {
              "{T,F}x{0,1,2}x{0,1e-4,1} on the default trajectory; dimorder/optdims as lists or left at their defaults",
     "thorough": "same shapes plus (1,4) and (3,1,4) with three members each; 9 members per shape (more value seeds, rank 3 + noise, exact rank 3, empty last slice); "
                 "holders additionally tensor from a C buffer, sptensor stored in reverse, ttensor with sparse core, "
-                "three-part sumtensor, int64-valued tensor/sptensor for the count members; K = 6 horizons; given guess x ALL N! dimorders x ALL non-empty optdims subsets "
+                "three-part sumtensor (these four layouts with float64 storage only); storage dtypes int64 and narrowest exact on "
+                "the quick-tier holders, every other exact dtype of int32/int16/int8/uint8 on tensor and sptensor; K = 6 horizons; given guess x ALL N! dimorders x ALL non-empty optdims subsets "
                 "(order 4: all 24 dimorders with all modes optimised + 3 dimorders x all 15 subsets), a second given "
                 "guess with non-unit weights, warm restarts j in {1,2,3} on 5 (dimorder, optdims) keys, random seeds "
                 "{0,1,2} and nvecs x 3 dimorders x {all, drop-first}; the "
@@ -156,6 +161,33 @@ def data_array(d):
     raise ValueError(fam)
 
 
+# storage dtype dimension: every member of D is integer-valued, so every holder that stores cells (dense array, sparse
+# value column, Tucker core, parts of a sum) can keep them in any dtype that represents each value exactly
+INT_DTYPES = ["int64", "int32", "int16", "int8", "uint8"]
+
+
+def exact_dtypes(A):
+    """The integer storage dtypes that hold every value of the (integer-valued) array A exactly - reference side."""
+    lo, hi = (float(np.min(A)), float(np.max(A))) if A.size else (0.0, 0.0)
+    return [dt for dt in INT_DTYPES if np.iinfo(dt).min <= lo and hi <= np.iinfo(dt).max]
+
+
+def storage_dtypes(d, tier):
+    """Integer storage dtypes enumerated for the member d as [(dtype, on every holder?)]: the platform integer and the
+    narrowest exact one (unsigned when the data are non-negative) go on every holder in both tiers; thorough adds the
+    exact dtypes in between on the two primitive holders."""
+    ok = exact_dtypes(data_array(d))
+    main = ["int64"] + ([ok[-1]] if ok[-1] != "int64" else [])
+    out = [(dt, True) for dt in main]
+    if tier == "thorough":
+        out += [(dt, False) for dt in ok if dt not in main]
+    return out
+
+
+LAYOUTS = ("tensor:C", "sptensor:rev", "ttensor:idsp", "sumtensor:three")     # thorough-only memory / part layouts
+PRIMITIVE = ("tensor:F", "sptensor:id")
+
+
 def holder_names(d, tier):
     thorough = tier == "thorough"
     names = ["tensor:F"]
@@ -174,9 +206,25 @@ def holder_names(d, tier):
         names.append("sumtensor:ktsp")
     if thorough:
         names.append("sumtensor:three")
-        if d["fam"] == "counts":
-            names += ["tensor:int", "sptensor:int"]     # integer dtype, as count data usually arrive
-    return names
+    # float64 storage first (simplest), then the holders again per integer storage dtype (the layout variants of the
+    # thorough tier stay float64: layout and storage dtype are handled by the same constructor copy)
+    out = list(names)
+    for dt, everywhere in storage_dtypes(d, tier):
+        for nm in names:
+            if nm in LAYOUTS or not (everywhere or nm in PRIMITIVE):
+                continue
+            # holders that store something else than cells of the array (the CP weights in the core of the native
+            # Tucker holder, the noise part next to the Kruskal part of a sum): that must be representable as well
+            if nm == "ttensor:native" and dt not in exact_dtypes(lowrank_parts(d)[0]):
+                continue
+            if nm == "sumtensor:ktsp" and dt not in exact_dtypes(noise_array(d)):
+                continue
+            out.append(f"{nm}@{dt}")
+    return out
+
+
+def holder_dtype(name):
+    return name.partition("@")[2] or "float64"
 
 
 def _masked(A, keep):
@@ -188,25 +236,20 @@ def build_holder(name, d, A):
     """Fresh real pyttb object called `name` that denotes the array A."""
     import pyttb as ttb
 
-    kind, how = name.split(":")
+    base, _, dt = name.partition("@")
+    kind, how = base.split(":")
     shape = list(A.shape)
     vals = [float(v) for v in rm.vals_f(A)]
+    st = {"dtype": dt} if dt else {}        # storage dtype of every stored cell collection of this holder
 
     def dense(v, c=False):
-        return H.build({"kind": "tensor", "shape": shape, "vals": v, "c_order": c})
+        return H.build({"kind": "tensor", "shape": shape, "vals": v, "c_order": c, **st})
 
     def sparse(v, rev=False):
         k = sum(1 for x in v if x != 0)
         order = list(range(k))[::-1] if rev else list(range(k))
-        return H.build({"kind": "sptensor", "shape": shape, "vals": v, "order": order})
+        return H.build({"kind": "sptensor", "shape": shape, "vals": v, "order": order, **st})
 
-    if how == "int":
-        Ai = np.asarray(A).astype(np.int64)
-        if kind == "tensor":
-            return ttb.tensor(np.asfortranarray(Ai))
-        subs, v = H.sp_parts(shape, vals)
-        return ttb.sptensor(np.array(subs, dtype=int).reshape(len(subs), len(shape)),
-                            np.array(v, dtype=np.int64).reshape(-1, 1), tuple(shape))
     if kind == "tensor":
         return dense(vals, how == "C")
     if kind == "sptensor":
@@ -218,6 +261,8 @@ def build_holder(name, d, A):
             core = np.zeros((R,) * len(shape))
             for r in range(R):
                 core[(r,) * len(shape)] = w[r]
+            if dt:
+                core = core.astype(np.dtype(dt))
             return ttb.ttensor(ttb.tensor(np.asfortranarray(core)), [f.copy(order="F") for f in fs])
         core = sparse(vals) if how == "idsp" else dense(vals)
         return ttb.ttensor(core, [np.eye(s, order="F") for s in shape])
@@ -508,12 +553,12 @@ def _run_als(case, ctx):
     K = int(case.get("K", KMAX[tier]))
     ctx.count("fam:" + d["fam"])
     ctx.flag("holder:" + name)
+    ctx.count("dtype:" + holder_dtype(name))
     if "only" in case:
         keys = [case["only"]]
     else:
-        # sumtensor documents that it has no nvecs; integer-valued sparse data make sptensor.nvecs (ARPACK) raise -
-        # a defect of nvecs itself (property C14), so that start is not enumerated for the integer sparse holder
-        keys = list(plan(N, kind, tier, info.struct_ok, seed, nvecs_ok=(name != "sptensor:int")))
+        # sumtensor documents that it has no nvecs
+        keys = list(plan(N, kind, tier, info.struct_ok, seed))
     for t in keys:
         _run_T(ctx, case, d, name, A, info, R, t, K, seed)
 
@@ -525,7 +570,7 @@ def _sub(case, t, k, opt, adm):
             "tier": case.get("tier", "quick"), "seed": case.get("seed", 0), "K": int(k),
             "only": {"init": t["init"], "dimorder": list(t["dimorder"]), "optdims": list(t["optdims"]),
                      "form": t.get("form", "list"), "opts": [] if tuple(opt) == BASE else [list(opt)], "ks": [int(k)]},
-            "kind": name.split(":")[0], "ndims": len(case["data"]["shape"]), "fam": case["data"]["fam"],
+            "kind": name.split(":")[0], "dtype": holder_dtype(name), "ndims": len(case["data"]["shape"]), "fam": case["data"]["fam"],
             "init_kind": t["init"]["kind"], "fixsigns": bool(opt[0]), "printitn": int(opt[1]),
             "stoptol": float(opt[2]), "k": int(k), "nopt": len(t["optdims"]), "adm": bool(adm)}
 
@@ -751,6 +796,7 @@ def _run_T(ctx, case, d, name, A, info, R, t, K, seed):
             ctx.flag("inadm:struct" if not info.struct_ok else "inadm:cond")
             return st
         ctx.flag("adm:" + kind)
+        ctx.flag("adm:storage:" + ("float" if holder_dtype(name) == "float64" else "integer"))
         # ---- numeric invariants of the returned state
         W = np.asarray(M.weights, dtype=float)
         F = [np.asarray(f, dtype=float) for f in M.factor_matrices]
@@ -997,7 +1043,8 @@ def _check_variant(ctx, case, t, info, name, st, base, k, opt):
 def finalize(tier, seed, totals):
     need = ["adm:tensor", "adm:sptensor", "adm:ttensor", "adm:sumtensor", "branch:printing", "branch:norm_unavailable",
             "stop:early", "stop:maxiters", "init:nvecs:arpack", "init:random:uniform_stream", "fixsigns:would_flip",
-            "inadm:struct", "guess:nonunit_weights:given", "guess:nonunit_weights:warm"]
+            "inadm:struct", "guess:nonunit_weights:given", "guess:nonunit_weights:warm", "adm:storage:float",
+            "adm:storage:integer"]
     if not totals.cases:
         return
     for f in need:
